@@ -229,12 +229,17 @@ class Denormalize(Contract):
 
 
 class AutoRec(Contract):
-    rel, qualname = AREL, 'auto_of.rec'
+    rel, role = AREL, 'auto_of.rec'
+
+    def __init__(self):
+        from contracts.printers import find_recursive_helper
+        # nested in auto_of or a module-level function it calls: found by role (the recursive function the encoder calls)
+        self.qualname = find_recursive_helper(AREL, 'auto_of', 'auto_of.rec')
 
     def closure_env(self, I, f):
         m = I.load_module('depccg.printer.auto')
         env = Env(m.env)
-        env.set('rec', f)
+        env.set(f.node.name, f)
         return env
 
     def cases(self, I):
